@@ -138,7 +138,7 @@ Section Step.
 
   Lemma payload_tuple_not_err : forall name i ts c k,
     v_tuple vrec ts c = ROk k ->
-    rbind (o_tuple orec ts c) (fun es => ROk (EVarTuple name i es)) <> RErr.
+    rbind (o_tuple orec ts c) (fun es => ROk (EVarTuple name i (variant_tuple es))) <> RErr.
   Proof.
     intros name i ts c k H E. apply rbind_err in E. destruct E as [E|[fs [_ E]]]; [|discriminate].
     exact (tuple_step _ _ _ H E).
@@ -344,15 +344,12 @@ Proof.
   - eexists. split; vm_compute; reflexivity.
 Qed.
 
-(* still refuted on the repaired tree (finding C06-F13): a VALID default selecting a variant whose payload is a
-   one-element tuple is rendered `E::V(3_i64)` while the variant is declared `V((i64,))` *)
-Lemma default_typed_tuple1_variant_refuted :
-  exists T f t d k e, validate_value re0 T f t d = ROk k /\ output_value T f t d = ROk e /\
-                      expr_typed T f e t = false /\ expr_any (is_tuple1_variant T) e = true.
-Proof.
-  exists Tw, 3%nat, 12, (JObj [(u "V", JArr [JInt 3])]), KSpecific, (EVarTuple (u "E") (u "V") [ENum (JInt 3) (u "i64")]).
-  repeat split; vm_compute; reflexivity.
-Qed.
+(* fix 15ce314 (ex finding C06-F13): a default selecting a variant whose payload is a one-element tuple is rendered
+   `E::V((3_i64,))` for the variant declared `V((i64,))`: typed, and denotes the schema default *)
+Lemma tuple1_variant_example :
+  exists e, output_value Tw 3 12 (JObj [(u "V", JArr [JInt 3])]) = ROk e /\ expr_typed Tw 3 e 12 = true /\
+            eval_expr Tw e = Some (JObj [(u "V", JArr [JInt 3])]).
+Proof. eexists. repeat split; vm_compute; reflexivity. Qed.
 
 (* ------------------------------------------------------------------ invalid shapes are rejected *)
 Lemma invalid_rejected_scalar : forall re T f t det d,
